@@ -439,6 +439,24 @@ Section Subst.
     end.
 End Subst.
 
+(* the namespace of a manager: every label bound to its own container reference *)
+Definition id_ns (kind : pystr -> bool) : pystr -> option term := fun l => Some (TTop l (kind l)).
+
+(* references as the API builds them: a label has one kind, and attribute
+   access on an ObjectAttrRef container is an item access *)
+Definition kinds_okb (kind : pystr -> bool) : term -> bool :=
+  fix ok (t : term) : bool :=
+    match t with
+    | TConst _ | TLiteral _ => true
+    | TTop l oa => Bool.eqb oa (kind l)
+    | TItem o k => ok o && ok k
+    | TAttr o k => ok o && ok k && match o with TTop _ true => false | _ => true end
+    | TBin _ l r => ok l && ok r
+    | TUn _ a => ok a
+    | TBuiltin _ a ps => ok a && forallb ok ps
+    | TCall f args kw => ok f && forallb ok args && forallb (fun p => ok (snd p)) kw
+    end.
+
 (* ------------------------------------------------- the printed sub-language *)
 
 Definition reflectable_ops : list pystr :=
